@@ -167,7 +167,8 @@ func parse(ctx context.Context, fileDesc *desc.FileDescriptor, mode meta.ParseSe
 }
 
 func parseMessage(ctx context.Context, msgDesc *desc.MessageDescriptor, cache compilingCache, recursionDepth int, opts Options, parseTarget ParseTarget) (*TypeDescriptor, error) {
-	if tycache, ok := cache[msgDesc.GetName()]; ok && tycache.parseTarget == parseTarget {
+	// message types are identified by their fully-qualified name: simple names repeat across scopes and packages
+	if tycache, ok := cache[msgDesc.GetFullyQualifiedName()]; ok && tycache.parseTarget == parseTarget {
 		return tycache.desc, nil
 	}
 
@@ -186,7 +187,7 @@ func parseMessage(ctx context.Context, msgDesc *desc.MessageDescriptor, cache co
 		msg:  md,
 	}
 
-	cache[ty.name] = &compilingInstance{
+	cache[msgDesc.GetFullyQualifiedName()] = &compilingInstance{
 		desc:        ty,
 		opts:        opts,
 		parseTarget: parseTarget,
